@@ -1,6 +1,6 @@
 """Generators of HTTP/1.x payloads and HTTP signature databases (C04, C06, C07)."""
 NAMES = ["Host", "User-Agent", "Accept", "Accept-Encoding", "Accept-Language", "Connection", "Keep-Alive", "Server", "Date",
-         "Content-Type", "Content-Length", "Via", "X-Tag", "Cookie"]
+         "Content-Type", "Content-Length", "Via", "X-Tag", "Cookie", "X-Zone-Id", "Authorization"]      # (incl. names with every "edge" letter: a, z, A, Z)
 VALUES = ["example.com", "Mozilla/5.0 (X11; Linux) Firefox/10.0", "curl/7.81", "*/*", "gzip, deflate", "keep-alive", "close", "", "x", "a:b",
           "text/html", "0", "Apache/2.2", "nginx/1.2", "en-US,en;q=0.5", "MSIE 8.0", " padded ", "a  b",
           "text/html ;q=0.9", "CURL/7.81", "apache/2.2", "mozilla/5.0 firefox/10.0", "Mozilla/5.0 (KHTML, like Gecko) HeadlessChrome/41", "Mozilla/5.0 (KHTML, like Gecko) Chrome/41 Safari", "x ;y"]
